@@ -47,6 +47,15 @@ func (t *Telnet) handleControlCharResponse(ctrlBuf []byte, c byte) ([]byte, erro
 		}
 	} else if len(ctrlBuf) == 1 && util.ByteIsAny(c, []byte{do, dont, will, wont}) {
 		ctrlBuf = append(ctrlBuf, c)
+	} else if len(ctrlBuf) == 1 {
+		// iac followed by something other than an option verb: a two byte command (nop, go ahead,
+		// ...) or an escaped 0xff data byte -- either way this sequence is over, do not swallow
+		// the bytes that follow it
+		if c == iac {
+			t.initialBuf = append(t.initialBuf, c)
+		}
+
+		ctrlBuf = make([]byte, 0)
 	} else if len(ctrlBuf) == 2 { //nolint:mnd
 		cmd := ctrlBuf[1:2][0]
 		ctrlBuf = make([]byte, 0)
